@@ -12,6 +12,19 @@ Shared evaluator lemmas for `RuschmModel/Eval.lean`.
    `Evals.lambda`, `Evals.quote`, `Evals.cond_true/false/void/err`, `Evals.assign…`,
    `Evals.call`, `Evals.call_nonproc`, `EvalsArgs.nil/cons/cons_err…`, `Applies.builtin`,
    `Applies.closure_value`, `Applies.closure_tail`, `Applies.apply`, `Applies.arity_err`, …).
+3. Inversion lemmas (`Evals.cond_inv`, `Evals.call_inv`, `EvalsArgs.cons_inv`, `EvalsDefs.cons_inv`,
+   `EvalsBody.cons_inv`, `AppliesScheme.inv`, …) and the list characterisations
+   (`evalsArgs_iff_mapEvals`, `evalArgs_eq_mapEval`, `evalsDefs_iff_defsSeq`, `evalsBody_iff`).
+4. Frames: `lookup_eq_chain`, `lookupAux_eq_chainOlderAux`, `parentsOlder_newFrame/define`,
+   `frameBinding_define`, `chain_define`; parameter binding (`bindFixed_eq_bindAll`), `spreadApply_snoc`.
+5. `Store.erase` commutes with every store operation the evaluator uses (`Store.erase_define`,
+   `Store.erase_set`, `readLiteral_erase`, `applyPure_erase`, `bindFixed_erase`, …).
+6. The reference evaluator `Ref.eval` (RuschmSpec/Ref.lean): fuel monotonicity (`Ref.eval_mono_le` …),
+   the simulation `Ref.refines_all` (model ⇒ reference, invariant `Ref.TailOK` for pending tail calls)
+   and its converse for values `Ref.conv_all` (invariant `Ref.TailConv`).
+7. `RuschmModel/Xform.lean`: `toDefinition_sugar`, `toDefinition_lambda`, `Expr.beq_refl`, and the
+   relational invariance of the whole transformer under syntax-environment relations (`EnvRel`,
+   `Rel2`, `relAll`), giving `toBody_inChild`.
 -/
 import RuschmSpec.Ref
 import RuschmModel.Xform
